@@ -2223,8 +2223,10 @@ func (r *Resolvable) renderInaccessibleEnumValueError(e *Enum) {
 	defer pool.BytesBuffer.Put(buf)
 	_, _ = buf.WriteString("Invalid value found for ")
 	pathLength := len(r.path)
-	// The enum is an array element
-	if pathLength > 1 && r.path[pathLength-1].Name == "" {
+	// The enum is an array element: it has no path of its own, and the last element of the
+	// current path is an index. (An enum field of an object that is itself an array element
+	// is also rendered below an index, its own path has not been pushed yet.)
+	if len(e.Path) == 0 && pathLength > 1 && r.path[pathLength-1].Name == "" {
 		r.writeArrayElementToBuffer(buf, e.TypeName)
 		if r.options.ApolloCompatibilityValueCompletionInExtensions {
 			r.addValueCompletion(buf.String(), errorcodes.InvalidGraphql)
